@@ -36,14 +36,10 @@ mod verif_c02 {
         (ms, perm, live)
     }
 
-    // @harness id=C02 tier=quick timeout=2400 mem=16 checks=rust
-    // @bounds MultiState with 2 slots in any order / any split between live and free; one insert at End / Index(p) / IndexFromBack(p) / After(anchor) / Before(anchor), p in 0..=3: the new bar sits at the documented position, the others keep their relative order, the slot is fresh or recycled, the invariant is preserved
-    #[kani::proof]
-    #[kani::unwind(7)]
-    fn c02_insert_step() {
+    /// the kind of insert location is CONCRETE per harness (a symbolic choice among the five kinds together with Vec::insert
+    /// at a symbolic index exhausts 16 GB); the slot permutation, the live/free split and the position argument are symbolic
+    fn insert_step(k: u8) {
         let (mut ms, perm, live) = any_state();
-        let k: u8 = kani::any();
-        kani::assume(k < 5);
         let p: usize = kani::any();
         kani::assume(p <= M + 1);
         let (loc, want) = match k {
@@ -83,11 +79,37 @@ mod verif_c02 {
         assert!(ms.members[idx].draw_state.is_none() && !ms.members[idx].is_zombie);
         assert!(ms.ordering.len() + ms.free_set.len() == ms.members.len());
         assert!(ms.len() == ms.ordering.len());
-        kani::cover!(k == 2 && p > live);
-        kani::cover!(k == 3 && live == M);
-        kani::cover!(k == 1 && p == 0 && live == 1);
+        kani::cover!(live == M);
+        kani::cover!(live == 0 || k >= 3);
+        kani::cover!(k != 2 || p > live);
         std::mem::forget(ms);
     }
+
+    macro_rules! c02_insert {
+        ($name:ident, $k:expr) => {
+            #[kani::proof]
+            #[kani::unwind(7)]
+            fn $name() {
+                insert_step($k);
+            }
+        };
+    }
+
+    // @harness id=C02 tier=quick timeout=2400 mem=16 checks=rust
+    // @bounds MultiState with 2 slots in any order / any split between live and free; insert at End (add): the new bar is last, the others keep their relative order, the slot is fresh or recycled, the invariant is preserved
+    c02_insert!(c02_insert_end, 0);
+    // @harness id=C02 tier=quick timeout=2400 mem=16 checks=rust
+    // @bounds same states; insert(Index(p)), p in 0..=3: the new bar sits at min(p, live)
+    c02_insert!(c02_insert_index, 1);
+    // @harness id=C02 tier=quick timeout=2400 mem=16 checks=rust
+    // @bounds same states; insert_from_back(p), p in 0..=3: the new bar sits at live - p (0 if p > live), counted among the LIVE bars only
+    c02_insert!(c02_insert_from_back, 2);
+    // @harness id=C02 tier=quick timeout=2400 mem=16 checks=rust
+    // @bounds same states; insert_after(anchor) for any live anchor: directly after it
+    c02_insert!(c02_insert_after, 3);
+    // @harness id=C02 tier=quick timeout=2400 mem=16 checks=rust
+    // @bounds same states; insert_before(anchor) for any live anchor: directly before it
+    c02_insert!(c02_insert_before, 4);
 
     // @harness id=C02 tier=quick timeout=2400 mem=16 checks=rust
     // @bounds same states; remove_idx(i) for any slot i: a live slot leaves the order (others keep their relative order) and becomes free and reset; removing a free slot changes nothing
